@@ -5,6 +5,8 @@ import SSV.Proofs.ParsersSocks2
 import SSV.Proofs.ParsersSocks3
 import SSV.Proofs.ParsersHttp
 import SSV.Proofs.Repack
+import SSV.Proofs.StreamHS
+import SSV.Proofs.DnsHttp
 /-
 C06 — No bytes from the network can crash the process.
 
@@ -209,6 +211,42 @@ theorem parsed_address_fits_packers_dc (b : Bytes) (a : Addr) (n : Nat) (h : con
 (0, 1 … 899 → `IntN(900-len+1)`, ≥ 900, more than fits) and target; both `intToUint16` conversions stay in range -/
 theorem no_panic_relay_dialstream_split (target : Addr) (ht : target.nameFits = true) (payloadLen draw : Nat) :
     dialStreamSplit target payloadLen draw ≠ .panic := np_dialStreamSplit target ht payloadLen draw
+
+/-! ### gap round: ss2022 `HandleStream` pre-authentication buffer arithmetic, the client's first read, dns `parseMsg`, HTTP `Location` -/
+
+/-- `StreamServer.HandleStream` for EVERY configuration (any salt length, 0/1 identity header, any request-stream prefix length,
+allowSegmentedFixedLengthHeader or not, fallback or not) and everything a peer controls: how many bytes arrive and in which
+fragments (`chunk0`, `total`), their content (through the salt-pool / prefix / user-table / AEAD verdicts, all arbitrary) and the
+rest of the stream. Hypotheses: the identity header length is 0 or `IdentityHeaderLength`; AEAD `Open` of the 27-byte sealed
+fixed header yields 11 bytes when it succeeds. The fallback's `readBuf[:n]` is in range because a read never returns more than
+the buffer holds (`firstRead_le`). -/
+theorem no_panic_handleStream (cfg : HSCfg) (hid : cfg.idLen = 0 ∨ cfg.idLen = Gen.C06.IdentityHeaderLength) (now : Int)
+    (chunk0 total : Nat) (replayed prefixOk userFound saltAdded : Bool) (openFixed : Option Bytes)
+    (hopen : ∀ pt, openFixed = some pt → pt.length = Gen.C06.TCPRequestFixedLengthHeaderLength)
+    (openVar : Bytes → Option Bytes) (rest : Bytes) :
+    handleStream cfg now chunk0 total replayed prefixOk userFound saltAdded openFixed openVar rest ≠ .panic :=
+  np_handleStream cfg hid now chunk0 total replayed prefixOk userFound saltAdded openFixed hopen openVar rest
+example : ∀ pt : Bytes, (some (List.replicate 11 (0 : UInt8)) : Option Bytes) = some pt → pt.length = Gen.C06.TCPRequestFixedLengthHeaderLength := by
+  intro pt h; cases h; rfl
+
+/-- the ss2022 client's first `Read` (`initRead` buffer choice and slicing, response header, `requestSalt[:requestSaltLen]`, first
+payload chunk into the caller's buffer or the 65551-byte read buffer) for every caller buffer size, prefix length, key size ≤ 32
+and server byte stream. Hypothesis: AEAD `Open` of the sealed response header yields `1+8+saltLen+2` bytes when it succeeds. -/
+theorem no_panic_clientFirstRead (urspLen saltLen : Nat) (hs : saltLen ≤ 32) (segmented : Bool) (now : Int) (reqSalt : Bytes)
+    (hrs : reqSalt.length ≤ 32) (bLen chunk0 total : Nat) (prefixOk : Bool) (openHdr : Option Bytes)
+    (hopen : ∀ pt, openHdr = some pt → pt.length = 1 + 8 + saltLen + 2) (openChunk : Bytes → Option Bytes) (rest : Bytes) :
+    clientFirstRead urspLen saltLen segmented now reqSalt bLen chunk0 total prefixOk openHdr openChunk rest ≠ .panic :=
+  np_clientFirstRead urspLen saltLen hs segmented now reqSalt hrs bLen chunk0 total prefixOk openHdr hopen openChunk rest
+example : (16 : Nat) ≤ 32 ∧ (List.replicate 16 (0 : UInt8)).length ≤ 32 := by decide
+
+/-- `dns.resultBuilder.parseMsg`'s own logic over ANY trace of `dnsmessage.Parser` results (every call may fail at any point):
+it performs no index or slice operation of its own besides `r.a[:0]` / `r.aaaa[:0]` (fingerprint `shape_dnsParseMsg`) -/
+theorem no_panic_dnsParseMsg (now failTTL : Int) (isUDP : Bool) (r : ResultBuilder) (t : DnsTrace) :
+    dnsParseMsg now failTTL isUDP r t ≠ .panic := np_dnsParseMsg now failTTL isUDP r t
+
+/-- the HTTP forwarder's only index expression on peer data: `location[0]` of a 301/302/307 response, for every header multiset -/
+theorem no_panic_locationForcesClose (location : List Bytes) (urlHost : Bytes → Option Bytes) (reqHost : Bytes) :
+    locationForcesClose location urlHost reqHost ≠ .panic := np_locationForcesClose location urlHost reqHost
 
 /-! ### what a peer returns to a CLIENT of this program: the SOCKS5 UDP ASSOCIATE reply and the `conn.Addr` accessors -/
 
@@ -425,13 +463,13 @@ theorem shape_serverHandleBasicAuth : Gen.C06.serverHandleBasicAuth_shape =
 theorem shape_ShadowStreamConnRead : Gen.C06.ShadowStreamConnRead_shape =
     ["if cap(b) < streamReadMinBufferSize => return", "panic", "b[:2+tagSize]", "call Uint16", "b[:length+tagSize]"] := rfl
 
-theorem audited_shape_StreamServerHandleStream : Gen.C06.StreamServerHandleStream_shape =
+theorem shape_StreamServerHandleStream : Gen.C06.StreamServerHandleStream_shape =
     ["if bufferLen <= cap(writeBuf)", "writeBuf[:bufferLen]", "b[:reservedStart]", "if n > 0 && s.unsafeFallbackAddr.IsValid() => return", "readBuf[:n]", "b[:urspLen]", "b[urspLen:identityHeaderStart]", "b[fixedLengthHeaderStart:reservedStart]", "b[reservedStart:]", "b[identityHeaderStart:fixedLengthHeaderStart]", "conv [IdentityHeaderLength]byte", "if bufferLen <= cap(writeBuf)", "writeBuf[:bufferLen]"] := rfl
 
-theorem audited_shape_ShadowStreamClientInitRead : Gen.C06.ShadowStreamClientInitRead_shape =
+theorem shape_ShadowStreamClientInitRead : Gen.C06.ShadowStreamClientInitRead_shape =
     ["case bufferLen <= len(b)", "b[:bufferLen]", "case bufferLen <= streamReadMinBufferSize", "c.ShadowStreamConn.getReadBuf()[:bufferLen]", "hb[:urspLen]", "hb[urspLen:fixedLengthHeaderStart]", "hb[fixedLengthHeaderStart:]", "c.requestSalt[:c.requestSaltLen]"] := rfl
 
-theorem audited_shape_readOnceExpectFull : Gen.C06.readOnceExpectFull_shape =
+theorem shape_readOnceExpectFull : Gen.C06.readOnceExpectFull_shape =
     ["if err == io.EOF && 0 < n && n < len(b) => return", "if n < len(b) => return"] := rfl
 
 theorem shape_clientNegotiateAuthMethod : Gen.C06.clientNegotiateAuthMethod_shape =
@@ -446,7 +484,7 @@ theorem shape_clientDoRequest : Gen.C06.clientDoRequest_shape =
 theorem audited_shape_ParseSessionIDAndPacketID : Gen.C06.ParseSessionIDAndPacketID_shape =
     ["call Uint64", "call Uint64", "b[8:]"] := rfl
 
-theorem audited_shape_dnsParseMsg : Gen.C06.dnsParseMsg_shape =
+theorem shape_dnsParseMsg : Gen.C06.dnsParseMsg_shape =
     ["r.a[:0]", "r.aaaa[:0]"] := rfl
 
 theorem audited_shape_dnsDoTCP : Gen.C06.dnsDoTCP_shape =
@@ -526,6 +564,27 @@ theorem shape_NoneUDPClientNewSession : Gen.C06.NoneUDPClientNewSession_shape =
 theorem shape_SS2022UDPClientNewSession : Gen.C06.SS2022UDPClientNewSession_shape =
     ["call .ResolveIPPort", "call Uint64"] := rfl
 
+theorem shape_serverForwardResponses : Gen.C06.serverForwardResponses_shape =
+    ["resp.Header[\"Location\"]", "if len(location) != 1", "location[0]", "resp.Header[\"Connection\"]"] := rfl
+
+theorem shape_serverForwardRequests : Gen.C06.serverForwardRequests_shape =
+    ["req.Header[\"Connection\"]", "req.Header[\"User-Agent\"]", "req.Header[\"User-Agent\"]"] := rfl
+
+theorem shape_removeConnectionSpecificFields : Gen.C06.removeConnectionSpecificFields_shape =
+    ["header[\"Connection\"]"] := rfl
+
+theorem shape_httpServerHandle : Gen.C06.httpServerHandle_shape =
+    ["if failedAuthAttempts > 0 => return"] := rfl
+
+theorem shape_ShadowStreamClientRead : Gen.C06.ShadowStreamClientRead_shape =
+    ["if bufLen <= len(b) => return", "b[:bufLen]", "readBuf[:bufLen]", "readBuf[:payloadLen]"] := rfl
+
+theorem shape_ShadowStreamClientReadFirstChunk : Gen.C06.ShadowStreamClientReadFirstChunk_shape =
+    [] := rfl
+
+theorem shape_lengthExtendSalt : Gen.C06.lengthExtendSalt_shape =
+    ["out[:]"] := rfl
+
 end SSV.C06
 
 #print axioms SSV.C06.no_panic_addrPortFromSlice
@@ -567,6 +626,10 @@ end SSV.C06
 #print axioms SSV.C06.parsed_address_fits_packers
 #print axioms SSV.C06.parsed_address_fits_packers_dc
 #print axioms SSV.C06.no_panic_relay_dialstream_split
+#print axioms SSV.C06.no_panic_handleStream
+#print axioms SSV.C06.no_panic_clientFirstRead
+#print axioms SSV.C06.no_panic_dnsParseMsg
+#print axioms SSV.C06.no_panic_locationForcesClose
 #print axioms SSV.C06.no_panic_socks5_udp_associate_session
 #print axioms SSV.C06.accessor_ip_under_guard
 #print axioms SSV.C06.accessor_domain_under_guard
@@ -625,14 +688,14 @@ end SSV.C06
 #print axioms SSV.C06.shape_hostHeaderToAddr
 #print axioms SSV.C06.shape_serverHandleBasicAuth
 #print axioms SSV.C06.shape_ShadowStreamConnRead
-#print axioms SSV.C06.audited_shape_StreamServerHandleStream
-#print axioms SSV.C06.audited_shape_ShadowStreamClientInitRead
-#print axioms SSV.C06.audited_shape_readOnceExpectFull
+#print axioms SSV.C06.shape_StreamServerHandleStream
+#print axioms SSV.C06.shape_ShadowStreamClientInitRead
+#print axioms SSV.C06.shape_readOnceExpectFull
 #print axioms SSV.C06.shape_clientNegotiateAuthMethod
 #print axioms SSV.C06.shape_clientDoUsernamePasswordAuth
 #print axioms SSV.C06.shape_clientDoRequest
 #print axioms SSV.C06.audited_shape_ParseSessionIDAndPacketID
-#print axioms SSV.C06.audited_shape_dnsParseMsg
+#print axioms SSV.C06.shape_dnsParseMsg
 #print axioms SSV.C06.audited_shape_dnsDoTCP
 #print axioms SSV.C06.audited_shape_dnsSendQueries
 #print axioms SSV.C06.audited_shape_httpClientConnect
@@ -658,3 +721,10 @@ end SSV.C06
 #print axioms SSV.C06.shape_Socks5AuthUDPClientNewSession
 #print axioms SSV.C06.shape_NoneUDPClientNewSession
 #print axioms SSV.C06.shape_SS2022UDPClientNewSession
+#print axioms SSV.C06.shape_serverForwardResponses
+#print axioms SSV.C06.shape_serverForwardRequests
+#print axioms SSV.C06.shape_removeConnectionSpecificFields
+#print axioms SSV.C06.shape_httpServerHandle
+#print axioms SSV.C06.shape_ShadowStreamClientRead
+#print axioms SSV.C06.shape_ShadowStreamClientReadFirstChunk
+#print axioms SSV.C06.shape_lengthExtendSalt
